@@ -103,6 +103,7 @@ def apply_contract(interp, c, func, args, kwargs):
     old = None
     if c.old is not None:
         old = _call_pred(interp, c.old, env)
+        env = dict(env, old=old)
     if c.event is not None:
         st.emit(c.event, dict(bound))
     # exceptional outcomes
@@ -119,6 +120,8 @@ def apply_contract(interp, c, func, args, kwargs):
                 w = interp.truth(_call_pred(interp, when, env))
                 if interp.st.fork(w):
                     exc = _make_exc(interp, exc_cls, spec, env)
+                    if c.modifies:
+                        _havoc_frame(interp, c, bound)     # it may have changed its frame before raising
                     raise PyRaise(exc)
         nondet = [o for o in outcomes[1:] if o[2].get('when') is None]
         if nondet:
@@ -126,7 +129,11 @@ def apply_contract(interp, c, func, args, kwargs):
             if k > 0:
                 _, exc_cls, spec = nondet[k - 1]
                 exc = _make_exc(interp, exc_cls, spec, env)
+                if c.modifies:
+                    _havoc_frame(interp, c, bound)
                 raise PyRaise(exc)
+    if c.modifies:
+        _havoc_frame(interp, c, bound)
     result = c.returns.make(interp, 'ret.%s' % c.qname.rpartition(':')[2]) if isinstance(c.returns, Ty) else None
     if c.yields is not None:
         # a generator used through its contract: all its items at once (its effects happen at the call)
@@ -141,6 +148,101 @@ def apply_contract(interp, c, func, args, kwargs):
             continue
         st.assume(interp.truth(_call_pred(interp, clause, env2)))
     return result
+
+
+def _resolve_path(interp, c, bound, path):
+    parts = path.split('.')
+    if parts[0] not in bound:
+        raise Unsupported('contract %s: modifies entry %r does not start with a parameter' % (c.qname, path))
+    obj = bound[parts[0]]
+    for a in parts[1:-1]:
+        if isinstance(obj, (SOpt, SChoice)):
+            obj = interp.resolve(obj)
+        obj = interp.getattr(obj, a)
+    if isinstance(obj, (SOpt, SChoice)):
+        obj = interp.resolve(obj)
+    return obj, parts[-1]
+
+
+def _havoc_frame(interp, c, bound):
+    """`modifies={'self._x': <shape>, 'self._io.pos': <shape>}`: the fields a function may change; at a call
+    site they get arbitrary new values of the given shape (then the postconditions are assumed)."""
+    for path, ty in c.modifies.items():
+        obj, attr = _resolve_path(interp, c, bound, path)
+        v = ty.make(interp, '%s@%s' % (path, c.qname.rpartition(':')[2])) if isinstance(ty, Ty) else ty
+        interp.setattr(obj, attr, v)
+
+
+def _snapshot_fields(interp, args):
+    """(path -> value) of the instance attributes reachable from the parameters (two levels, plus the declared
+    attributes of opaque objects held in fields), to check the frame of a contract with `modifies`."""
+    from .values import Opaque
+    snap = {}
+
+    def fields(obj):
+        if isinstance(obj, Opaque):
+            return dict(obj._pv_attrs)
+        d = getattr(obj, '__dict__', None)
+        if isinstance(d, dict) and not isinstance(obj, (type, Sym)) and type(obj).__module__ != 'builtins':
+            return dict(d)
+        return None
+
+    def walk(prefix, obj, depth):
+        fs = fields(obj)
+        if fs is None:
+            return
+        for k, v in fs.items():
+            if not isinstance(k, str):
+                continue
+            path = '%s.%s' % (prefix, k)
+            snap[path] = (obj, k, v)
+            if depth < 3:
+                walk(path, v, depth + 1)
+
+    for name, v in args.items():
+        walk(name, v, 0)
+    return snap
+
+
+def _same_value(a, b):
+    if a is b:
+        return True
+    if isinstance(a, (SInt, SBool)) and type(a) is type(b):
+        return a.t.eq(b.t)
+    from .values import SStr
+    if isinstance(a, SStr) and isinstance(b, SStr):
+        return a.t.eq(b.t)
+    if isinstance(a, (int, str, bool, type(None))) and type(a) is type(b):
+        return a == b
+    return False
+
+
+def _check_frame(interp, c, args, before, fname):
+    """every field that differs from the snapshot must be covered by a `modifies` entry (itself or a prefix)"""
+    after = _snapshot_fields(interp, args)
+    declared = list(c.modifies or {})
+    bad = []
+    for path, (obj, k, v0) in before.items():
+        cur = after.get(path)
+        if cur is None:
+            # the holder itself was replaced: reported at the holder's path
+            continue
+        if cur[0] is not obj:
+            continue
+        if not _same_value(v0, cur[2]):
+            if not any(path == d or path.startswith(d + '.') for d in declared):
+                bad.append(path)
+    for path in after:
+        if path not in before and not any(path == d or path.startswith(d + '.') for d in declared):
+            par = path.rpartition('.')[0]
+            if par in before and after.get(par) is not None and before[par][2] is after[par][2]:
+                # a new attribute on an object that existed before (lazily created interface attributes are
+                # reads, not writes: they are only in _pv_attrs once read)
+                from .values import Opaque
+                if not isinstance(after[path][0], Opaque):
+                    bad.append(path)
+    interp.st.oblige('%s : frame[modifies %s]' % (fname, ', '.join(declared) or 'nothing'), not bad,
+                     {'kind': 'frame', 'changed_outside_frame': bad})
 
 
 def _make_exc(interp, exc_cls, spec, env):
@@ -290,6 +392,7 @@ def _run_path(interp, reg, c, func, rep):
         old = _call_pred(interp, c.old, env)
         reg.ghost_env['old'] = old        # visible to loop invariants
         interp.root_values.append(old)
+        env = dict(env, old=old)          # `when` conditions of exceptional outcomes may refer to the pre-state
     # positional order of the real function
     code = func.__code__
     names = list(code.co_varnames[:code.co_argcount + code.co_kwonlyargcount])
@@ -305,6 +408,7 @@ def _run_path(interp, reg, c, func, rep):
     pos = [args[n] for n in names[:code.co_argcount]]
     kw = {n: args[n] for n in names[code.co_argcount:] if n in args}
     outcome = None
+    frame_before = _snapshot_fields(interp, args) if c.modifies is not None else None
     info = frontend.funcinfo_of(func)
     yseq = None
     if info.is_generator:
@@ -323,6 +427,8 @@ def _run_path(interp, reg, c, func, rep):
     key = 'return' if outcome[0] == 'return' else type(outcome[1]).__name__
     rep.outcomes[key] = rep.outcomes.get(key, 0) + 1
     fname = c.qname
+    if frame_before is not None:
+        _check_frame(interp, c, args, frame_before, fname)
     if outcome[0] == 'return':
         env2 = _clause_env(args, ghosts, {'result': outcome[1], 'old': old, 'trace': st.trace, 'ghost': st.ghost})
         # a declared deterministic `when` exception must have been raised
